@@ -291,6 +291,12 @@ func (c *Ctx) ruleAnalysis(m *scanfsm.Machine, kinds map[string]string, pessimis
 		if !ok {
 			continue
 		}
+		if pessimistic && f.Kind != "progress" {
+			// with byte 0 as an ordinary byte the end-of-file branches of the step functions run in the middle of the
+			// data; the brackets and extents they break are exactly why Next() rejects byte 0 (guard verified by
+			// E1-EXTRACT nul-guard). What this run adds is the progress clause without that assumption.
+			continue
+		}
 		r.Bad(rule, f.Key+label, f.Text+"; byte trace from the start of a file: "+f.Trace, c.P.Pos(m.Pos[f.State]))
 	}
 	return a
@@ -516,11 +522,21 @@ func (c *Ctx) ruleC01Scanner(m *scanfsm.Machine, thorough bool) {
 		a := c.ruleAnalysis(m, kinds, pess)
 		n := map[string]int{}
 		for _, f := range a.Findings {
+			if pess && f.Kind != "progress" {
+				continue
+			}
 			n[kinds[f.Kind]]++
 		}
 		label := ""
 		if pess {
 			label = " (byte 0 as ordinary byte)"
+		}
+		if pess {
+			// only the progress clause is claimed without the NUL guard
+			if n["C01-FSM-PROGRESS"] == 0 {
+				r.Ok("C01-FSM-PROGRESS", "all cycles"+label, fmt.Sprintf("no cycle of non-positive cursor weight among %d edges", a.Edges), "")
+			}
+			continue
 		}
 		if n["C01-PDS-UNDERFLOW"] == 0 {
 			r.Ok("C01-PDS-UNDERFLOW", "all reachable configurations"+label, fmt.Sprintf("no pop of an empty step stack and no unmatched End event in %d configurations", a.Configs), "")
